@@ -1,6 +1,7 @@
 #![allow(static_mut_refs, unused_imports, dead_code, unused_unsafe)]
 // Kani harnesses for src/model.rs: header recomputation after edits (one inductive step)
 use super::*;
+use crate::model_vertex_declarations::VertexElement;
 
 fn lod0() -> MeshLod {
     MeshLod { mesh_index: 0, mesh_count: 0, model_lod_range: 0.0, texture_lod_range: 0.0,
@@ -314,4 +315,212 @@ fn c06_from_existing_minimal_model() {
         z += 1;
     }
     core::mem::forget(mdl);
+}
+
+// =================================================================================================
+// C07: MDL::write_to_buffer on a directly constructed version-5 model with the same shape as the
+// generated minimal model above (1 LOD, 1 mesh, 1 sub-mesh, 1 material name, 4 string bytes, no
+// bones / shapes): every section at the byte position the format description gives it, every
+// vertex element written from its own attribute at vertex_data_offset + stream offset + element
+// offset + stride * k, indices behind index_offset + 2 * start_index.
+// =================================================================================================
+fn w_elem(stream: u8, offset: u8, t: VertexType, u: VertexUsage) -> VertexElement {
+    VertexElement { stream, offset, vertex_type: t, vertex_usage: u, usage_index: 0 }
+}
+fn w_any_vertex() -> Vertex {
+    Vertex { position: kani::any(), uv0: kani::any(), uv1: kani::any(), normal: kani::any(), bitangent: kani::any(),
+        color: kani::any(), bone_weight: kani::any(), bone_id: kani::any() }
+}
+struct WShape { s0: usize, s1: usize, nv: usize, start_index: u32 }
+impl WShape {
+    fn vtx(&self) -> usize { M_VTX }
+    fn idx(&self) -> usize { M_VTX + self.nv * self.s0 + self.nv * self.s1 }
+}
+fn w_model(sh: &WShape, elements: Vec<VertexElement>, verts: Vec<Vertex>, indices: Vec<u16>, version: u32) -> MDL {
+    let mut lods = vec![lod0(), lod0(), lod0()];
+    lods[0].mesh_count = 1;
+    lods[0].vertex_buffer_size = (sh.nv * (sh.s0 + sh.s1)) as u32;
+    lods[0].index_buffer_size = 16;
+    lods[0].vertex_data_offset = sh.vtx() as u32;
+    lods[0].index_data_offset = sh.idx() as u32;
+    let mesh = Mesh { vertex_count: sh.nv as u16, index_count: indices.len() as u32, material_index: 0, submesh_index: 0, submesh_count: 1,
+        bone_table_index: 0, start_index: sh.start_index, vertex_buffer_offsets: [0, (sh.nv * sh.s0) as u32, 0],
+        vertex_buffer_strides: [sh.s0 as u8, sh.s1 as u8, 0], vertex_stream_count: 2 };
+    let header = ModelHeader { vertex_declarations: vec![VertexDeclaration { elements }], string_count: 1, string_size: 4, strings: vec![b'm', b't', 0, 0], radius: kani::any(),
+        mesh_count: 1, attribute_count: 0, submesh_count: 1, material_count: 1, bone_count: 0, bone_table_count: 0,
+        shape_count: 0, shape_mesh_count: 0, shape_value_count: 0, lod_count: 1, flags1: ModelFlags1::ShadowDisabled,
+        element_id_count: 0, terrain_shadow_mesh_count: 0, flags2: ModelFlags2::None, model_clip_out_of_distance: 0.0,
+        shadow_clip_out_of_distance: 0.0, unknown4: 0, terrain_shadow_submesh_count: 0, unknown5: 0,
+        bg_change_material_index: 0, bg_crest_change_material_index: 0, unknown6: 0, unknown7: 0, unknown8: 0, unknown9: kani::any() };
+    let mut bb = bbox();
+    bb.min = kani::any();
+    let mut fog = bbox();
+    fog.max = kani::any();
+    let model_data = ModelData { header, element_ids: vec![], lods, meshes: vec![mesh], attribute_name_offsets: vec![],
+        terrain_shadow_meshes: vec![],
+        submeshes: vec![Submesh { index_offset: sh.start_index, index_count: indices.len() as u32, attribute_index_mask: kani::any(), bone_start_index: 0, bone_count: 0 }],
+        terrain_shadow_submeshes: vec![], material_name_offsets: vec![0],
+        bone_name_offsets: vec![], bone_tables: vec![], bone_tables_v2: vec![], shapes: vec![], shape_meshes: vec![],
+        shape_values: vec![], submesh_bone_map_size: 0, submesh_bone_map_size_v2: 0, submesh_bone_map: vec![],
+        padding_amount: 0, unknown_padding: vec![], bounding_box: bb, model_bounding_box: bbox(),
+        water_bounding_box: bbox(), vertical_fog_bounding_box: fog, bone_bounding_boxes: vec![] };
+    let file_header = ModelFileHeader { version, stack_size: 136, runtime_size: (M_VTX - 68 - 136) as u32, vertex_declaration_count: 1,
+        material_count: 1, vertex_offsets: [sh.vtx() as u32, 0, 0], index_offsets: [sh.idx() as u32, 0, 0],
+        vertex_buffer_size: [(sh.nv * (sh.s0 + sh.s1)) as u32, 0, 0], index_buffer_size: [16, 0, 0], lod_count: 1,
+        index_buffer_streaming_enabled: false, has_edge_geometry: false };
+    let mut p = part(0);
+    p.vertices = verts;
+    p.indices = indices;
+    MDL { file_header, model_data, lods: vec![Lod { parts: vec![p] }], affected_bone_names: vec![], material_names: vec![] }
+}
+fn w_f32s<const N: usize>(w: &[u8], off: usize, v: &[f32; N]) {
+    let mut i = 0;
+    while i < N {
+        let got = u32::from_le_bytes([w[off + 4 * i], w[off + 4 * i + 1], w[off + 4 * i + 2], w[off + 4 * i + 3]]);
+        assert_eq!(got, v[i].to_bits());
+        i += 1;
+    }
+}
+fn w_bytes4(w: &[u8], off: usize, v: [u8; 4]) {
+    assert!(w[off] == v[0] && w[off + 1] == v[1] && w[off + 2] == v[2] && w[off + 3] == v[3]);
+}
+/// the sections in front of the vertex data: file header, declaration, strings, model header, LOD / mesh / sub-mesh tables,
+/// material name offsets, bone map size, padding amount, bounding boxes -- `M_VTX` bytes in all
+fn w_check_front(mdl: &MDL, w: &[u8], nelem: usize) {
+    assert!(w.len() >= M_VTX);
+    w_bytes4(w, 0, mdl.file_header.version.to_le_bytes());
+    w_bytes4(w, 4, 136u32.to_le_bytes());
+    w_bytes4(w, 16, mdl.file_header.vertex_offsets[0].to_le_bytes());
+    w_bytes4(w, 28, mdl.file_header.index_offsets[0].to_le_bytes());
+    assert_eq!(w[64], 1);
+    // declaration: one 8-byte slot per element, then the 0xFF terminator slot
+    let d = &mdl.model_data.header.vertex_declarations[0].elements;
+    let mut i = 0;
+    while i < nelem {
+        let o = M_DECL + 8 * i;
+        assert!(w[o] == d[i].stream && w[o + 1] == d[i].offset && w[o + 2] == d[i].vertex_type as u8 && w[o + 3] == d[i].vertex_usage as u8);
+        i += 1;
+    }
+    assert_eq!(w[M_DECL + 8 * nelem], 0xFF);
+    // strings
+    assert!(w[M_STR] == 1 && w[M_STR + 4] == 4 && w[M_STR + 8] == b'm' && w[M_STR + 9] == b't');
+    // model header: radius first, unknown9 six bytes before the LOD table
+    w_bytes4(w, M_HDR, mdl.model_data.header.radius.to_bits().to_le_bytes());
+    assert_eq!(u16::from_le_bytes([w[M_LODS - 8], w[M_LODS - 7]]), mdl.model_data.header.unknown9);
+    // LOD 0: vertex / index data offsets at +52 / +56
+    w_bytes4(w, M_LODS + 52, (M_VTX as u32).to_le_bytes());
+    // mesh 0: strides at +32
+    assert!(w[M_MESH + 32] == mdl.model_data.meshes[0].vertex_buffer_strides[0] && w[M_MESH + 35] == 2);
+    // sub-mesh 0: attribute mask at +8
+    w_bytes4(w, M_SUB + 8, mdl.model_data.submeshes[0].attribute_index_mask.to_le_bytes());
+    // tail: 4-byte bone map size (version 5), padding amount, then the four bounding boxes
+    w_bytes4(w, M_TAIL, [0, 0, 0, 0]);
+    assert_eq!(w[M_TAIL + 4], 0);
+    w_f32s(w, M_TAIL + 5, &mdl.model_data.bounding_box.min);
+    w_f32s(w, M_TAIL + 5 + 3 * 32 + 16, &mdl.model_data.vertical_fog_bounding_box.max);
+}
+
+/// float / byte typed elements (declaration A)
+#[kani::proof]
+#[kani::unwind(140)]
+fn c07_write_to_buffer_elements_single() {
+    let sh = WShape { s0: 40, s1: 16, nv: 2, start_index: 1 };
+    let elements = vec![
+        w_elem(0, 0, VertexType::Single3, VertexUsage::Position),
+        w_elem(0, 12, VertexType::Single3, VertexUsage::Normal),
+        w_elem(0, 24, VertexType::Single4, VertexUsage::UV),
+        w_elem(1, 0, VertexType::ByteFloat4, VertexUsage::BlendWeights),
+        w_elem(1, 4, VertexType::Byte4, VertexUsage::BlendIndices),
+        w_elem(1, 8, VertexType::ByteFloat4, VertexUsage::Color),
+        w_elem(1, 12, VertexType::ByteFloat4, VertexUsage::BiTangent),
+    ];
+    let v = [w_any_vertex(), w_any_vertex()];
+    let idx: [u16; 3] = kani::any();
+    let mdl = w_model(&sh, elements, vec![v[0], v[1]], vec![idx[0], idx[1], idx[2]], 0x0100_0005);
+    let w = mdl.write_to_buffer().unwrap();
+    w_check_front(&mdl, &w, 7);
+    assert_eq!(w.len(), sh.idx() + 2 + 6);
+    let mut k = 0;
+    while k < 2 {
+        let s0 = M_VTX + k * sh.s0;
+        let s1 = M_VTX + 2 * sh.s0 + k * sh.s1;
+        w_f32s(&w, s0, &v[k].position);
+        w_f32s(&w, s0 + 12, &v[k].normal);
+        w_f32s(&w, s0 + 24, &[v[k].uv0[0], v[k].uv0[1], v[k].uv1[0], v[k].uv1[1]]);
+        let mut e = [0u8; 12];
+        {
+            let mut c = Cursor::new(&mut e[..]);
+            MDL::write_byte_float4(&mut c, &v[k].bone_weight).unwrap();
+            MDL::write_byte_float4(&mut c, &v[k].color).unwrap();
+            MDL::write_tangent(&mut c, &v[k].bitangent).unwrap();
+        }
+        w_bytes4(&w, s1, [e[0], e[1], e[2], e[3]]);
+        w_bytes4(&w, s1 + 4, v[k].bone_id);
+        w_bytes4(&w, s1 + 8, [e[4], e[5], e[6], e[7]]);
+        w_bytes4(&w, s1 + 12, [e[8], e[9], e[10], e[11]]);
+        k += 1;
+    }
+    let i0 = sh.idx() + 2;
+    assert!(u16::from_le_bytes([w[i0], w[i0 + 1]]) == idx[0] && u16::from_le_bytes([w[i0 + 4], w[i0 + 5]]) == idx[2]);
+    kani::cover!(true);
+    core::mem::forget((mdl, w));
+}
+
+fn wstub_f32_to_f16(f: f32) -> u16 { half::f16::from_f32_const(f).to_bits() }
+
+/// half typed elements (declaration B): position / normal padded to four components, UV pairs combined
+#[kani::proof]
+#[kani::unwind(140)]
+#[kani::stub(half::binary16::arch::f32_to_f16, wstub_f32_to_f16)]
+fn c07_write_to_buffer_elements_half() {
+    let sh = WShape { s0: 16, s1: 8, nv: 2, start_index: 0 };
+    let elements = vec![
+        w_elem(0, 0, VertexType::Half4, VertexUsage::Position),
+        w_elem(0, 8, VertexType::Half4, VertexUsage::Normal),
+        w_elem(1, 0, VertexType::Half4, VertexUsage::UV),
+    ];
+    let v = [w_any_vertex(), w_any_vertex()];
+    let idx: [u16; 2] = kani::any();
+    let mdl = w_model(&sh, elements, vec![v[0], v[1]], vec![idx[0], idx[1]], 0x0100_0005);
+    let w = mdl.write_to_buffer().unwrap();
+    w_check_front(&mdl, &w, 3);
+    assert_eq!(w.len(), sh.idx() + 4);
+    let mut k = 0;
+    while k < 2 {
+        let s0 = M_VTX + k * sh.s0;
+        let s1 = M_VTX + 2 * sh.s0 + k * sh.s1;
+        let mut e = [0u8; 24];
+        {
+            let mut c = Cursor::new(&mut e[..]);
+            MDL::write_half4(&mut c, &[v[k].position[0], v[k].position[1], v[k].position[2], 1.0]).unwrap();
+            MDL::write_half4(&mut c, &[v[k].normal[0], v[k].normal[1], v[k].normal[2], 0.0]).unwrap();
+            MDL::write_half4(&mut c, &[v[k].uv0[0], v[k].uv0[1], v[k].uv1[0], v[k].uv1[1]]).unwrap();
+        }
+        let mut i = 0;
+        while i < 16 { assert_eq!(w[s0 + i], e[i]); i += 1; }
+        i = 0;
+        while i < 8 { assert_eq!(w[s1 + i], e[16 + i]); i += 1; }
+        k += 1;
+    }
+    kani::cover!(true);
+    core::mem::forget((mdl, w));
+}
+
+#[kani::proof]
+#[kani::unwind(30)]
+fn zz_probe_cursor_vec_gap() {
+    use std::io::Write;
+    let mut v: Vec<u8> = Vec::new();
+    let x: [u8; 3] = kani::any();
+    {
+        let mut c = Cursor::new(&mut v);
+        c.write_all(&x).unwrap();
+        c.seek(SeekFrom::Start(10)).unwrap();
+        c.write_all(&[4]).unwrap();
+        c.seek(SeekFrom::Current(5)).unwrap();
+        c.write_all(&x).unwrap();
+    }
+    assert_eq!(v.len(), 19);
+    assert_eq!(v[5], 0);
+    kani::cover!(true);
 }
